@@ -29,6 +29,24 @@ start = e;
 e = e "+" e | e "*" e | e "-" e | "(" e ")" | NUM | e e;
 NUM = /[0-9]+/;
 '''
+# conflicts whose report names synthesised non-terminals (gen<N>_group, gen_<x>_opt, _star, _plus)
+LALRSYN = '''grammar g;
+start = e;
+e = e ("+" | "-") e | e [ "?" ] e | {{ "x" }} | { e } "y" | NUM;
+NUM = /[0-9]+/;
+'''
+
+
+def synth_conflict(rng):
+    """an ambiguous grammar whose conflicting items run through synthesised non-terminals"""
+    ops = ['("+" | "-")', '("*" | "/" | "%")', '[ "?" ]', '{ "," }', '{{ ";" }}', '( "<" "=" | ">" )', '[ "a" | "b" ]']
+    alts = ['e %s e' % o for o in rng.sample(ops, rng.choice([1, 2, 3]))]
+    if rng.random() < 0.5:
+        alts.append('"(" e ")"')
+    alts.append("NUM")
+    rng.shuffle(alts)
+    return 'grammar g;\nstart = e;\ne = %s;\nNUM = /[0-9]+/;\n' % " | ".join(alts)
+
 
 ANSI = re.compile(r"\x1b\[[0-9;]*m")
 
@@ -51,7 +69,8 @@ def run(ctx):
     except Broken as b:
         ctx.add_broken(b.what, b.detail)
     rng = ctx.rng
-    texts = [MANY, DIAG, CONFLICT, LALRCONF]
+    texts = [MANY, DIAG, CONFLICT, LALRCONF, LALRSYN]
+    texts += [synth_conflict(rng) for _ in range(12 if quick else 150)]
     texts += [c03.gen_defs(rng) for _ in range(40 if quick else 600)]
     texts += [c08.gen_spec(rng) for _ in range(30 if quick else 400)]
     for tree, text, defects in sc.gen_cases(ctx, 60 if quick else 800, defect_rate=0.6):
@@ -101,7 +120,7 @@ def run(ctx):
     finally:
         shutil.rmtree(root, ignore_errors=True)
     cov = {"evaluations": stats["in_process_runs"] + stats["process_runs"], "distinct_nontrivial": len(distinct),
-           "rule": "specifications with many accepting states per terminal, several diagnostics of each kind, token conflicts and LALR conflicts, plus seeded random definition sets, escape-heavy specifications and defect-seeded specifications; each run 6 times in one process (whole pipeline; error text or the bytes of the six files compared) and 5 times in fresh processes of the real binary with -verbose (exit status, diagnostics without colour codes and emoji, SHA-256 of every emitted file); Go randomises map iteration per loop and the dependency shuffles its hash tables per call, so repeated runs see different orders; non-trivial = distinct specification",
+           "rule": "specifications with many accepting states per terminal, several diagnostics of each kind, token conflicts and LALR conflicts (also conflicts whose report names synthesised non-terminals), plus seeded random definition sets, escape-heavy specifications and defect-seeded specifications; each run 6 times in one process (whole pipeline; error text or the bytes of the six files compared) and 5 times in fresh processes of the real binary with -verbose (exit status, diagnostics without colour codes and emoji, SHA-256 of every emitted file); Go randomises map iteration per loop and the dependency shuffles its hash tables per call, so repeated runs see different orders; non-trivial = distinct specification",
            "samples": [texts[0][:200], texts[5][:200]], "outcomes": stats,
            "explanation": "proof of the principle (sorting erases collection order; the accepting-state lists are independent of the map order) and of the tie (the unordered loops of the source are exactly the classified ones, re-extracted on every run); byte-identity of whole runs is explored by repetition, not proved",
            "trusted_base": TRUSTED_BASE + ["translator fact `unordered` (syntactic: range over map-typed locals and over .All()/.Transitions() of dependency collections in the anchored files)",
